@@ -419,6 +419,10 @@ class SeriesOps:
         if short in ("ceil", "floor", "trunc") and name.split(".")[0] in ("np", "math"):
             t = M.as_ser_term(a0)
             return a0.with_term((short, t)) if isinstance(a0, Ser) else (short, t)
+        if name.startswith("operator.") and len(pos) == 2 and short in ("lt", "le", "gt", "ge", "eq", "ne", "add", "sub", "mul", "and_", "or_"):
+            if short in ("lt", "le", "gt", "ge", "eq", "ne"):
+                return M.compare({"lt": "Lt", "le": "LtE", "gt": "Gt", "ge": "GtE", "eq": "Eq", "ne": "NotEq"}[short], pos[0], pos[1], node)
+            return M.binop({"add": "Add", "sub": "Sub", "mul": "Mult", "and_": "BitAnd", "or_": "BitOr"}[short], pos[0], pos[1], node)
         if name in ("np.array", "np.asarray", "numpy.array", "numpy.asarray") and len(pos) == 1 and not kw and not isinstance(a0, (Ser, Frame)):
             return a0 if isinstance(a0, (list, tuple)) else to_term(a0)          # an array holding the same elements in the same order
         if name in ("np.unique",):
